@@ -191,9 +191,8 @@ func bscClient(s setup, odd bool, contract []byte) (sdk.KVStore, bsctypes.Client
 		ContractAddress: contract,
 		TrustingPeriod:  1 << 40,
 	}
-	if cs.GetDelayBlock() != s.Delay {
-		evmsim.Failf("BSC delay %d != %d", cs.GetDelayBlock(), s.Delay)
-	}
+	// the reference rule for BSC is floor(N/2)+1 confirmations for N validators (the sealing window of C09 plus one); the
+	// client's own GetDelayBlock is deliberately NOT consulted: if it states another number the gating cases below fail
 	store.Set(host.ClientStateKey(), clienttypes.MustMarshalClientState(cdc(), &cs))
 	return store, cs
 }
